@@ -601,12 +601,16 @@ def real_cases(rng, n, fail_rate):
              "pre_dispatch": rng.choice(["all", "2*n_jobs", "n_jobs", 1, 3, "1.5*n_jobs"]),
              "return_as": rng.choice(["list", "list", "generator", "generator_unordered"]), "N": N,
              "tfail": [], "ifail": None, "reuse": 2, "seed": rng.randint(0, 10 ** 6), "with_block": rng.random() < 0.4,
-             "verbose": rng.choice([0, 0, 0, 1, 11, 60])}
+             "verbose": rng.choice([0, 0, 0, 1, 11, 60]), "exc": "TaskFail", "init": None}
         if N and rng.random() < fail_rate:
             if rng.random() < 0.3:
                 c["ifail"] = rng.randint(0, N)
             else:
                 c["tfail"] = [rng.randint(0, N - 1)]
+                c["exc"] = rng.choice(["TaskFail", "TaskFail", "SystemExit", "KeyboardInterrupt", "BaseFail"])
+        if backend == "multiprocessing" and rng.random() < 0.6:
+            c["init"] = rng.randint(1, 9)       # a backend option (pool initializer) that every call must see
+            c["with_block"] = True
         if backend == "multiprocessing":
             c["return_as"] = "list"       # MultiprocessingBackend does not support generators (documented ValueError)
         cases.append(c)
@@ -617,6 +621,10 @@ def judge_real(c, r):
     bad = []
     if "harness_error" in r:
         return [("ALL", "harness error " + r["harness_error"])]
+    if r.get("hang"):
+        bad.append(("C04", "real backend %s: the Parallel call did not terminate (watchdog 60 s, confirmed with 150 s); "
+                           "calls finished before: %d; failure injected: tasks %s (%s), input %s" % (
+                               c["backend"], len(r["calls"]), c["tfail"], c.get("exc"), c["ifail"])))
     for k, call in enumerate(r["calls"]):
         cn = k + 1
         tf = c["tfail"] if k == 0 else []
@@ -626,6 +634,9 @@ def judge_real(c, r):
             bad.append(("C01", "real backend %s: a task ran twice: %s" % (c["backend"], sorted(execd))))
         if call["raised"] is None:
             vals = call["values"]
+            if c.get("init") is not None and any(len(v) > 2 and v[2] != c["init"] for v in vals):
+                bad.append(("C04", "real backend %s: call %d ran in workers that lost the backend option given to Parallel "
+                                   "(initializer flag %s instead of %s)" % (c["backend"], cn, sorted(set(map(str, (v[2] for v in vals)))), c["init"])))
             if any(v[0] != cn for v in vals):
                 bad.append(("C04", "real backend %s: call %d returned values of another call" % (c["backend"], cn)))
             idx = [v[1] for v in vals]
@@ -640,8 +651,9 @@ def judge_real(c, r):
         else:
             name, args = call["raised"]
             if tf and jf is None:
-                if name != "TaskFail" or args[:1] != ["task failed"] or args[1] not in tf:
-                    bad.append(("C04", "real backend %s: expected TaskFail('task failed', %s), got %s%s" % (c["backend"], tf, name, args)))
+                want = c.get("exc", "TaskFail")
+                if name != want or args[:1] != ["task failed"] or args[1] not in tf:
+                    bad.append(("C04", "real backend %s: expected %s('task failed', %s), got %s%s" % (c["backend"], want, tf, name, args)))
             elif jf is not None and not tf:
                 if name != "KeyError" or args[:1] != ["input failed"]:
                     bad.append(("C04", "real backend %s: expected KeyError('input failed', ..), got %s%s" % (c["backend"], name, args)))
@@ -650,23 +662,55 @@ def judge_real(c, r):
     return bad
 
 
+def fixed_real_cases():
+    """always-run shapes: failures that are not Exceptions, and backend options across a failed call in a with block"""
+    base = {"batch_size": "auto", "pre_dispatch": "2*n_jobs", "return_as": "list", "N": 8, "tfail": [3], "ifail": None,
+            "reuse": 2, "seed": 7, "with_block": False, "verbose": 0, "exc": "TaskFail", "init": None}
+    out = []
+    for backend, exc in (("threading", "SystemExit"), ("threading", "BaseFail"), ("multiprocessing", "KeyboardInterrupt"),
+                         ("multiprocessing", "SystemExit"), ("loky", "BaseFail"), ("sequential", "SystemExit")):
+        out.append(dict(base, backend=backend, n_jobs=1 if backend == "sequential" else 2, exc=exc))
+    out.append(dict(base, backend="multiprocessing", n_jobs=2, init=5, with_block=True))
+    out.append(dict(base, backend="multiprocessing", n_jobs=3, init=6, with_block=True, ifail=4, tfail=[], return_as="list"))
+    out.append(dict(base, backend="threading", n_jobs=2, with_block=True, return_as="generator", exc="KeyboardInterrupt"))
+    return out
+
+
 def real_sampling(ctx, quick, prop, fail_rate):
     cases = real_cases(ctx.rng, 24 if quick else 200, fail_rate)
+    if fail_rate >= 0.5:
+        cases = fixed_real_cases() + cases
     chunks = [cases[i::8] for i in range(8)]
     from concurrent.futures import ThreadPoolExecutor
 
     def work(ch):
-        if not ch:
-            return []
-        for attempt in (0, 1):
+        """runs the cases of a chunk; a case that hangs ends its child process, the rest is run in a new one; a hang is
+        confirmed by running the case once more alone with a longer watchdog before it counts"""
+        res = []
+        todo = list(ch)
+        guard = 0
+        while todo and guard < len(ch) + 3:
+            guard += 1
             try:
-                rc, out, err = common.run_impl("m1_real.py", input_text="\n".join(json.dumps(c) for c in ch) + "\n", timeout=600)
-                res = [json.loads(l) for l in out.splitlines() if l.startswith("{")]
-                if len(res) == len(ch):
-                    return res
+                rc, out, err = common.run_impl("m1_real.py", input_text="\n".join(json.dumps(c) for c in todo) + "\n", timeout=900)
+                got = [json.loads(l) for l in out.splitlines() if l.startswith("{")]
             except subprocess.TimeoutExpired:
-                pass
-        return [{"harness_error": "inconclusive (timeout or crash of the sampling process)", "inconclusive": True}] * len(ch)
+                got = []
+            if not got:
+                got = [{"harness_error": "inconclusive (timeout or crash of the sampling process)", "inconclusive": True}]
+            if got[-1].get("hang"):
+                try:
+                    rc, out, err = common.run_impl("m1_real.py", input_text=json.dumps(dict(todo[len(got) - 1], watchdog=150)) + "\n", timeout=400)
+                    again = [json.loads(l) for l in out.splitlines() if l.startswith("{")]
+                except subprocess.TimeoutExpired:
+                    again = []
+                if again and not again[-1].get("hang"):
+                    got[-1] = again[-1]          # slow machine, not a hang
+            res.extend(got)
+            todo = todo[len(got):]
+        while len(res) < len(ch):
+            res.append({"harness_error": "inconclusive (timeout or crash of the sampling process)", "inconclusive": True})
+        return res
     with ThreadPoolExecutor(8) as ex:
         outs = list(ex.map(work, chunks))
     n_bad = 0
